@@ -4,6 +4,7 @@ package main
 // and the observation of which native effects are present in a context.
 
 import (
+	"encoding/hex"
 	"fmt"
 	"math/big"
 	"sort"
@@ -17,10 +18,15 @@ import (
 	ethtypes "github.com/ethereum/go-ethereum/core/types"
 	"github.com/ethereum/go-ethereum/crypto"
 
+	minttypes "github.com/cosmos/cosmos-sdk/x/mint/types"
 	stakingkeeper "github.com/cosmos/cosmos-sdk/x/staking/keeper"
 	stakingtypes "github.com/cosmos/cosmos-sdk/x/staking/types"
 
+	ibctransfertypes "github.com/cosmos/ibc-go/v8/modules/apps/transfer/types"
+
+	fxcontract "github.com/functionx/fx-core/v8/contract"
 	fxtypes "github.com/functionx/fx-core/v8/types"
+	erc20types "github.com/functionx/fx-core/v8/x/erc20/types"
 	crosschaintypes "github.com/functionx/fx-core/v8/x/crosschain/types"
 	fxstakingtypes "github.com/functionx/fx-core/v8/x/staking/types"
 
@@ -45,6 +51,11 @@ type World struct {
 	basePeriod uint64 // distribution period of validator 1 in base
 	okClaims    []uint64 // event nonces of pending claims that execute (SendToFx of FX to a fresh receiver)
 	panicClaims []uint64 // event nonces of pending bridge-call results whose call no longer exists
+	ibcOpen, ibcClosed   []uint64   // pending SendToFx claims forwarding over an open / a closed IBC channel
+	ibcAmount            map[uint64]string // their amount+denom strings (event attribution)
+	tokE       *lib.Token // module-owned ERC-20 (eth alias) the frame contracts hold and approved to the crosschain precompile
+	batched    []uint64   // per frame contract (first nBatched): id of its ERC-20 transfer that is already in a batch
+	tokEBase   map[int]*big.Int
 	tok        *lib.Token // a registered user-owned ERC-20 whose code the harness replaces per tree (hostile transferFrom)
 }
 
@@ -77,6 +88,7 @@ func NewWorld(seed int64) *World {
 			panic("unexpected pool id")
 		}
 	}
+	w.setupBatched(seed)
 	w.setupClaims(seed)
 	tok, err := c.SetupExternal("HST", 77, w.owner, []string{"eth"})
 	lib.Must(err)
@@ -98,6 +110,57 @@ func NewWorld(seed int64) *World {
 }
 
 const nClaims = 6
+const nIBCClaims = 3
+const nBatched = 8
+
+// setupBatched: a module-owned ERC-20 bridged to eth; the first nBatched frame contracts hold some, approved the
+// crosschain precompile, sent a transfer through crossChain (so the erc20 module keeps the outgoing-transfer relation)
+// and the transfers have since been picked into an outgoing batch.
+func (w *World) setupBatched(seed int64) {
+	c := w.c
+	tokE, err := c.SetupModuleOwned("USDE", 93, []string{"eth"}, "")
+	lib.Must(err)
+	w.tokE = tokE
+	foreignStorage[tokE.ERC20] = true
+	// bridge-denom coins that earlier inbound deposits (swapped into the base denom) left with the chain module
+	liq := sdk.NewCoins(lib.Coin(tokE.Alias("eth").Denom, 10_000_000))
+	lib.Must(c.App.BankKeeper.MintCoins(c.Ctx, minttypes.ModuleName, liq))
+	lib.Must(c.App.BankKeeper.SendCoinsFromModuleToModule(c.Ctx, minttypes.ModuleName, "eth", liq))
+	xabi := crosschaintypes.GetABI()
+	pc := lib.CrosschainPrecompile
+	max := new(big.Int).Lsh(big.NewInt(1), 200)
+	for i := 0; i < nBatched; i++ {
+		a := frameAddr(i)
+		c.Mint(a.Bytes(), lib.Coin(tokE.Base, 1_000_000))
+		_, err := c.App.Erc20Keeper.ConvertCoin(c.Ctx, &erc20types.MsgConvertCoin{Coin: lib.Coin(tokE.Base, 1_000_000),
+			Receiver: a.Hex(), Sender: sdk.AccAddress(a.Bytes()).String()})
+		lib.Must(err)
+		ap, err := fxcontract.GetFIP20().ABI.Pack("approve", pc, max)
+		lib.Must(err)
+		if r := c.EvmCall(c.Ctx, a, &tokE.ERC20, nil, 3_000_000, ap); r.Err != nil || r.Failed {
+			panic(fmt.Sprintf("setup approve: %v %s", r.Err, r.VmError))
+		}
+		data, err := xabi.Pack("crossChain", tokE.ERC20, lib.ExternalAccount(seed, "eth", 600+i), big.NewInt(int64(500+i)), big.NewInt(10),
+			fxtypes.MustStrToByte32("eth"), "")
+		lib.Must(err)
+		if r := c.EvmCall(c.Ctx, a, &pc, nil, 3_000_000, data); r.Err != nil || r.Failed {
+			panic(fmt.Sprintf("setup ERC-20 crossChain: %v %s", r.Err, r.VmError))
+		}
+		w.batched = append(w.batched, uint64(maxFrames+1+i))
+	}
+	batch, err := c.App.EthKeeper.BuildOutgoingTxBatch(c.Ctx, tokE.Alias("eth").Contract, lib.ExternalAccount(seed, "eth", 699), 100, sdkmath.ZeroInt(), sdkmath.ZeroInt())
+	lib.Must(err)
+	if len(batch.Transactions) != nBatched {
+		panic("the batch did not pick every ERC-20 transfer")
+	}
+	for i, id := range w.batched {
+		if !c.App.Erc20Keeper.HasOutgoingTransferRelation(c.Ctx, "eth", id) {
+			panic(fmt.Sprintf("no outgoing-transfer relation for the ERC-20 transfer of frame %d (id %d)", i, id))
+		}
+	}
+	// the proxy's logic contract also shows up as a storage context? no: delegatecall keeps the proxy's context
+	w.tokEBase = map[int]*big.Int{}
+}
 
 func claimAmount(nonce uint64) int64 { return 30_000 + int64(nonce) }
 
@@ -132,7 +195,42 @@ func (w *World) setupClaims(seed int64) {
 		}
 		w.panicClaims = append(w.panicClaims, n)
 	}
-	for _, n := range append(append([]uint64{}, w.okClaims...), w.panicClaims...) {
+	// deposits that are to be forwarded over IBC: one channel stays open, the other one is closed after the
+	// claims were attested
+	w.ibcAmount = map[uint64]string{}
+	var closedPort, closedChan string
+	for ci, closed := range []bool{false, true} {
+		port, ch := c.OpenTransferChannel(uint64(100 * (ci + 1)))
+		t, err := c.SetupModuleOwned([]string{"USDO", "USDC"}[ci], 91+ci, []string{"eth"}, ch)
+		lib.Must(err)
+		foreignStorage[t.ERC20] = true
+		// vouchers that were swapped into the base denom earlier are parked in the transfer module
+		vouchers := sdk.NewCoins(lib.Coin(t.IBCDenom, 10_000_000))
+		lib.Must(c.App.BankKeeper.MintCoins(c.Ctx, minttypes.ModuleName, vouchers))
+		lib.Must(c.App.BankKeeper.SendCoinsFromModuleToModule(c.Ctx, minttypes.ModuleName, ibctransfertypes.ModuleName, vouchers))
+		for i := 0; i < nIBCClaims; i++ {
+			nonce++
+			n := nonce
+			if err := x.Claim(o, &crosschaintypes.MsgSendToFxClaim{EventNonce: n, BlockHeight: 1000 + n, TokenContract: t.Alias("eth").Contract,
+				Amount: sdkmath.NewInt(claimAmount(n)), Sender: lib.ExternalAccount(seed, "eth", 750+int(n)),
+				Receiver:  sdk.AccAddress(markerSpender(20_000 + int(n)).Bytes()).String(),
+				TargetIbc: hex.EncodeToString([]byte(fmt.Sprintf("px/%s/%s", port, ch)))}); err != nil {
+				panic(fmt.Sprintf("setup SendToFx/IBC claim: %v", err))
+			}
+			w.ibcAmount[n] = fmt.Sprint(claimAmount(n))
+			if closed {
+				w.ibcClosed = append(w.ibcClosed, n)
+			} else {
+				w.ibcOpen = append(w.ibcOpen, n)
+			}
+		}
+		if closed {
+			closedPort, closedChan = port, ch
+		}
+	}
+	c.SetChannelClosed(c.Ctx, closedPort, closedChan, true)
+	all := append(append(append(append([]uint64{}, w.okClaims...), w.panicClaims...), w.ibcOpen...), w.ibcClosed...)
+	for _, n := range all {
 		if _, found := c.App.EthKeeper.GetPendingExecuteClaim(c.Ctx, n); !found {
 			panic(fmt.Sprintf("claim %d is not pending after its attestation", n))
 		}
@@ -209,7 +307,14 @@ func (w *World) fill(m *Marker) {
 		m.Target = lib.CrosschainPrecompile
 		m.Value = amountOfBit(m.Bit)
 		m.Data, err = xabi.Pack("increaseBridgeFee", "eth", big.NewInt(poolID(m.Ctx)), common.Address{}, m.Value)
-	case MkExecClaim, MkExecPanic:
+	case MkFeeGone:
+		m.Target = lib.CrosschainPrecompile
+		id := uint64(9_999)
+		if m.Pool == 0 {
+			id = w.batched[m.Ctx]
+		}
+		m.Data, err = xabi.Pack("increaseBridgeFee", "eth", new(big.Int).SetUint64(id), w.tokE.ERC20, big.NewInt(int64(7+m.ID)))
+	case MkExecClaim, MkExecPanic, MkExecIBC, MkExecIBCClosed:
 		m.Target = lib.CrosschainPrecompile
 		m.Data, err = xabi.Pack("executeClaim", "eth", new(big.Int).SetUint64(m.Claim))
 	case MkTokenCB:
@@ -300,6 +405,19 @@ func (w *World) observeNatives(ctx sdk.Context, ms []*Marker, ctxs []int) (prese
 		case MkExecClaim:
 			if _, pending := w.c.App.EthKeeper.GetPendingExecuteClaim(ctx, m.Claim); !pending {
 				present = append(present, m.ID)
+			}
+		case MkExecIBC:
+			if _, pending := w.c.App.EthKeeper.GetPendingExecuteClaim(ctx, m.Claim); !pending {
+				present = append(present, m.ID)
+			}
+		case MkExecIBCClosed:
+			if _, pending := w.c.App.EthKeeper.GetPendingExecuteClaim(ctx, m.Claim); !pending {
+				present = append(present, m.ID)
+				leaks = append(leaks, fmt.Sprintf("marker %d: the pending claim %d was consumed although its IBC leg cannot be sent", m.ID, m.Claim))
+			}
+		case MkFeeGone:
+			if bal := w.c.ERC20BalanceOf(ctx, w.tokE.ERC20, frameAddr(m.Ctx)); bal.Cmp(w.c.ERC20BalanceOf(w.base, w.tokE.ERC20, frameAddr(m.Ctx))) != 0 {
+				leaks = append(leaks, fmt.Sprintf("marker %d: the ERC-20 balance of frame %d changed (to %s) although the fee increase was refused and its Cosmos side rolled back", m.ID, m.Ctx, bal))
 			}
 		case MkExecPanic:
 			if _, pending := w.c.App.EthKeeper.GetPendingExecuteClaim(ctx, m.Claim); !pending {
@@ -399,6 +517,7 @@ func hostileToken(in *Marker) []byte {
 func eventMarkers(evs sdk.Events, ms []*Marker) []int {
 	byAmount := map[string]int{}
 	byCancel := map[string]int{} // pool id -> cancel marker
+	byPrefix := map[string]int{} // amount (any denomination of the token: bridge, base, ibc voucher) -> marker
 	for _, m := range ms {
 		switch m.Kind {
 		case MkDelegate:
@@ -411,6 +530,8 @@ func eventMarkers(evs sdk.Events, ms []*Marker) []int {
 			byAmount[m.Value.String()+fxtypes.DefaultDenom] = m.ID
 		case MkExecClaim:
 			byAmount[fmt.Sprint(claimAmount(m.Claim))+fxtypes.DefaultDenom] = m.ID
+		case MkExecIBC:
+			byPrefix[fmt.Sprint(claimAmount(m.Claim))] = m.ID
 		case MkCancel:
 			byCancel[fmt.Sprint(poolID(m.Ctx))] = m.ID
 		}
@@ -420,6 +541,11 @@ func eventMarkers(evs sdk.Events, ms []*Marker) []int {
 		for _, a := range e.Attributes {
 			if id, ok := byAmount[a.Value]; ok {
 				seen[id] = true
+			}
+			for pre, id := range byPrefix {
+				if strings.HasPrefix(a.Value, pre) && len(a.Value) > len(pre) && (a.Value[len(pre)] < '0' || a.Value[len(pre)] > '9') {
+					seen[id] = true
+				}
 			}
 			if e.Type == crosschaintypes.EventTypeSendToExternalCanceled && a.Key == crosschaintypes.AttributeKeyOutgoingTxID {
 				if id, ok := byCancel[a.Value]; ok {
